@@ -29,5 +29,6 @@ def conditions(tier):
     cs += _c.shape_conditions("compile_history", "c11", ["feature"] if q else ["feature", "rule1", "rules"], T=1200)
     for s1 in ((1, 2) if q else (0, 1, 2, 3)):
         cs.append(Cond("harness.stream", "stream_agrees", {"fix": {"s1": s1, "ps": False}}, T=900, reach=["accepted", "rejected"]))
+    cs += _c.source_level(tier)
     cs.append(Cond(_d.M, "twin_never_parses", {"shape": "steps"}, T=120, expect="cex"))
     return cs
